@@ -1,7 +1,18 @@
 (* Model of pkg/remux/gop_cache.go: ring of GOPs + cached metadata / headers.
    Items are abstract (A): in lal they are the serialised bytes of a message. *)
-From Coq Require Import List Arith Bool.
+From Coq Require Import List Arith Bool NArith.
 Import ListNotations.
+
+(* payload bytes of a sequence header, compared to notice a change of parameter sets *)
+Fixpoint payload_eqb (a b : list N) : bool :=
+  match a, b with
+  | [], [] => true
+  | x :: a', y :: b' => N.eqb x y && payload_eqb a' b'
+  | _, _ => false
+  end.
+
+Definition hdr_changed (prev : option (list N)) (cur : list N) : bool :=
+  match prev with Some q => negb (payload_eqb q cur) | None => false end.
 
 Section GopCache.
 Variable A : Type.
@@ -11,6 +22,8 @@ Record gop_cache := mk_gop_cache {
   gc_meta_wo : option A;     (* MetadataEnsureWithoutSetDataFrame *)
   gc_vsh : option A;         (* VideoSeqHeader *)
   gc_ash : option A;         (* AacSeqHeader *)
+  gc_vsh_p : option (list N); (* videoSeqHeaderPayload *)
+  gc_ash_p : option (list N); (* aacSeqHeaderPayload *)
   gc_ring : list (list A);   (* gopRing, length gopSize *)
   gc_first : nat;            (* gopRingFirst *)
   gc_last : nat;             (* gopRingLast *)
@@ -19,7 +32,7 @@ Record gop_cache := mk_gop_cache {
 }.
 
 Definition gc_new (gop_num max : nat) : gop_cache :=
-  {| gc_meta_w := None; gc_meta_wo := None; gc_vsh := None; gc_ash := None;
+  {| gc_meta_w := None; gc_meta_wo := None; gc_vsh := None; gc_ash := None; gc_vsh_p := None; gc_ash_p := None;
      gc_ring := repeat [] (S gop_num); gc_first := 0; gc_last := 0;
      gc_size := S gop_num; gc_max := max |}.
 
@@ -48,6 +61,7 @@ Definition gc_is_empty (g : gop_cache) : bool := Nat.eqb (gc_first g) (gc_last g
 
 Definition gc_with_ring (g : gop_cache) ring first last : gop_cache :=
   {| gc_meta_w := gc_meta_w g; gc_meta_wo := gc_meta_wo g; gc_vsh := gc_vsh g; gc_ash := gc_ash g;
+     gc_vsh_p := gc_vsh_p g; gc_ash_p := gc_ash_p g;
      gc_ring := ring; gc_first := first; gc_last := last; gc_size := gc_size g; gc_max := gc_max g |}.
 
 Definition gc_feed_new_gop (g : gop_cache) (b : A) : gop_cache :=
@@ -66,28 +80,37 @@ Definition gc_feed_last_gop (g : gop_cache) (b : A) : gop_cache * bool :=
 (* classification of the message, computed by the caller *)
 Inductive mclass := MMeta | MAsh | MVsh | MKey | MOther.
 
-(* GopCache.Feed(msg, b) *)
-Definition gc_feed (g : gop_cache) (c : mclass) (b : A) : gop_cache * bool :=
+(* GopCache.Feed(msg, b); [p] = msg.Payload.  A sequence header whose content
+   differs from the cached one drops the cached GOPs (they were coded under the
+   previous parameter sets). *)
+Definition gc_feed (g : gop_cache) (c : mclass) (b : A) (p : list N) : gop_cache * bool :=
   match c with
   | MMeta => (g, true)
-  | MAsh => ({| gc_meta_w := gc_meta_w g; gc_meta_wo := gc_meta_wo g; gc_vsh := gc_vsh g; gc_ash := Some b;
-                gc_ring := gc_ring g; gc_first := gc_first g; gc_last := gc_last g;
-                gc_size := gc_size g; gc_max := gc_max g |}, true)
-  | MVsh => ({| gc_meta_w := gc_meta_w g; gc_meta_wo := gc_meta_wo g; gc_vsh := Some b; gc_ash := gc_ash g;
-                gc_ring := gc_ring g; gc_first := gc_first g; gc_last := gc_last g;
-                gc_size := gc_size g; gc_max := gc_max g |}, true)
+  | MAsh =>
+      let reset := hdr_changed (gc_ash_p g) p in
+      ({| gc_meta_w := gc_meta_w g; gc_meta_wo := gc_meta_wo g; gc_vsh := gc_vsh g; gc_ash := Some b;
+          gc_vsh_p := gc_vsh_p g; gc_ash_p := Some p;
+          gc_ring := gc_ring g; gc_first := if reset then 0 else gc_first g; gc_last := if reset then 0 else gc_last g;
+          gc_size := gc_size g; gc_max := gc_max g |}, true)
+  | MVsh =>
+      let reset := hdr_changed (gc_vsh_p g) p in
+      ({| gc_meta_w := gc_meta_w g; gc_meta_wo := gc_meta_wo g; gc_vsh := Some b; gc_ash := gc_ash g;
+          gc_vsh_p := Some p; gc_ash_p := gc_ash_p g;
+          gc_ring := gc_ring g; gc_first := if reset then 0 else gc_first g; gc_last := if reset then 0 else gc_last g;
+          gc_size := gc_size g; gc_max := gc_max g |}, true)
   | MKey => if Nat.ltb 1 (gc_size g) then (gc_feed_new_gop g b, true) else (g, true)
   | MOther => if Nat.ltb 1 (gc_size g) then gc_feed_last_gop g b else (g, true)
   end.
 
 Definition gc_set_metadata (g : gop_cache) (w wo : A) : gop_cache :=
   {| gc_meta_w := Some w; gc_meta_wo := Some wo; gc_vsh := gc_vsh g; gc_ash := gc_ash g;
+     gc_vsh_p := gc_vsh_p g; gc_ash_p := gc_ash_p g;
      gc_ring := gc_ring g; gc_first := gc_first g; gc_last := gc_last g;
      gc_size := gc_size g; gc_max := gc_max g |}.
 
 (* GopCache.Clear(): ring slots keep their data but become unreachable *)
 Definition gc_clear (g : gop_cache) : gop_cache :=
-  {| gc_meta_w := None; gc_meta_wo := None; gc_vsh := None; gc_ash := None;
+  {| gc_meta_w := None; gc_meta_wo := None; gc_vsh := None; gc_ash := None; gc_vsh_p := None; gc_ash_p := None;
      gc_ring := gc_ring g; gc_first := 0; gc_last := 0; gc_size := gc_size g; gc_max := gc_max g |}.
 
 Definition opt_list (o : option A) : list A := match o with Some x => [x] | None => [] end.
@@ -95,6 +118,7 @@ Definition opt_list (o : option A) : list A := match o with Some x => [x] | None
 End GopCache.
 
 Arguments gc_meta_w {A}. Arguments gc_meta_wo {A}. Arguments gc_vsh {A}. Arguments gc_ash {A}.
+Arguments gc_vsh_p {A}. Arguments gc_ash_p {A}.
 Arguments gc_ring {A}. Arguments gc_first {A}. Arguments gc_last {A}. Arguments gc_size {A}. Arguments gc_max {A}.
 Arguments gc_new {A}. Arguments gc_count {A}. Arguments gc_gop_at {A}. Arguments gc_all {A}.
 Arguments gc_feed {A}. Arguments gc_set_metadata {A}. Arguments gc_clear {A}. Arguments opt_list {A}.
